@@ -630,24 +630,28 @@ class VLE(Equilibrium, phases='lg'):
     def set_Tx(self, T, x):
         self._setup()
         assert self._N == 2, 'number of species in equilibrium must be 2 to specify x'
+        self._T = self._thermal_condition.T = T
         self._thermal_condition.P, y = self._bubble_point.solve_Py(x, T)
         self._lever_rule(x, y)
     
     def set_Px(self, P, x):
         self._setup()
         assert self._N == 2, 'number of species in equilibrium must be 2 to specify x'
+        self._P = self._thermal_condition.P = P
         self._thermal_condition.T, y = self._bubble_point.solve_Ty(x, P) 
         self._lever_rule(x, y)
         
     def set_Ty(self, T, y):
         self._setup()
         assert self._N == 2, 'number of species in equilibrium must be 2 to specify y'
+        self._T = self._thermal_condition.T = T
         self._thermal_condition.P, x = self._dew_point.solve_Px(y, T)
         self._lever_rule(x, y)
     
     def set_Py(self, P, y):
         self._setup()
         assert self._N == 2, 'number of species in equilibrium must be 2 to specify y'
+        self._P = self._thermal_condition.P = P
         self._thermal_condition.T, x = self._dew_point.solve_Tx(y, P) 
         self._lever_rule(x, y)
         
